@@ -304,6 +304,14 @@ class Machine:
         if name in self.const_cache: return copy_val(self.const_cache[name])
         it = self.items.get(name)
         if it is None:
+            # promoted constants of generic functions are referred to with generic arguments
+            nm = re.sub(r"::<[^{}]*?>(?=::)", '', name)
+            it = self.items.get(nm)
+            segs = nm.split('::')
+            while it is None and len(segs) > 1:
+                segs = segs[1:]; it = self.items.get('::'.join(segs))
+                if it is not None and it.kind == 'fn': it = None
+        if it is None:
             last = name.split('::')[-1]
             cands = [k for k, v in self.items.items() if v.kind != 'fn' and (k == last or k.endswith('::' + last))]
             if len(cands) == 1: it = self.items[cands[0]]
